@@ -22,6 +22,23 @@ func VerifC01Window() {
 		sum += w[i]
 		// a new server with Weight(0) would get the default weight: add, then re-weight
 		e1 := r.UpsertServer(urls[i], Weight(1))
+		if i == n-1 && verifParam("failed") == 1 {
+			// the last re-weighting is an invalid call (a valid option followed by an invalid
+			// one) made in mid-rotation: it must fail; whatever weight the balancer reports
+			// afterwards is the weight the selections have to be proportional to
+			sk := verifInt("skip")
+			verifAssume(verifAnd(sk >= 0, sk <= 3))
+			for s := verifConcretize(sk, 0, 3); s > 0; s-- {
+				_, _ = r.NextServer()
+			}
+			e2 := r.UpsertServer(urls[i], Weight(w[i]), Weight(-1))
+			verifAssert("invalid-upsert-fails", verifAnd(e1 == nil, e2 != nil))
+			rw, ok := r.ServerWeight(urls[i])
+			verifAssert("weight-reported", ok)
+			sum += rw - w[i]
+			w[i] = rw
+			continue
+		}
 		e2 := r.UpsertServer(urls[i], Weight(w[i]))
 		verifAssert("upsert-ok", verifAnd(e1 == nil, e2 == nil))
 	}
